@@ -58,3 +58,47 @@ macro_rules! maybe_lock_unit {
 maybe_lock_unit!(c20_maybe_lock_granted, 0);
 maybe_lock_unit!(c20_maybe_lock_unsupported, 1);
 maybe_lock_unit!(c20_maybe_lock_refused, 2);
+
+/// maybe_lock has no memory: its contract holds for the second file whatever happened with the first one
+/// (e.g. a file system that does not support locking must not switch locking off for the files that follow).
+static mut OUTCOMES: [u8; 2] = [0; 2];
+
+fn stub_file_lock_new_seq(_path: &Path) -> io::Result<FileLock> {
+    use std::os::unix::io::FromRawFd;
+    unsafe {
+        let k = if NEW_CALLS == 0 { OUTCOMES[0] } else { OUTCOMES[1] };
+        NEW_CALLS += 1;
+        match k {
+            0 => Ok(FileLock { file: std::fs::File::from_raw_fd(3) }),
+            1 => Err(io::Error::from(ErrorKind::Unsupported)),
+            _ => Err(io::Error::from(ErrorKind::WouldBlock)),
+        }
+    }
+}
+
+macro_rules! maybe_lock_seq_unit {
+    ($name:ident, $first:expr, $second:expr) => {
+        #[kani::proof]
+        #[kani::stub(crate::lock::FileLock::new, stub_file_lock_new_seq)]
+        #[kani::unwind(6)]
+        fn $name() {
+            unsafe {
+                NEW_CALLS = 0;
+                OUTCOMES = [$first, $second];
+            }
+            let r1 = FsCommand::maybe_lock(&p1(b"K"), true);
+            std::mem::forget(r1);
+            let r2 = FsCommand::maybe_lock(&p1(b"L"), true);
+            let ok2 = r2.is_ok();
+            std::mem::forget(r2);
+            unsafe {
+                assert!(NEW_CALLS == 2, "C20.maybe_lock.every_file_is_locked_whatever_happened_before");
+                assert!(ok2 == ($second != 2), "C20.maybe_lock.refused_lock_is_an_error_whatever_happened_before");
+            }
+            kani::cover!(true, "cover.reached");
+        }
+    };
+}
+maybe_lock_seq_unit!(c20_maybe_lock_after_unsupported_refused, 1, 2);
+maybe_lock_seq_unit!(c20_maybe_lock_after_refused_granted, 2, 0);
+maybe_lock_seq_unit!(c20_maybe_lock_after_granted_refused, 0, 2);
